@@ -177,15 +177,18 @@ class Leaves:
         return runs[0]
 
 
-def check_node(node, leaves, how='iter'):
+def check_node(node, leaves, how='iter', n=N):
     """(mismatch kind or None, exp, got, exc) for one expression, standalone."""
     from vf import model_patterns as mp, c13_build as cb
-    exp, exp_ended = mp.take(node, N, leaves=leaves)
+    exp, exp_ended = mp.take(node, n, fuel=20000 * max(1, n // N), leaves=leaves)
     pat = cb.build(node)
     if how == 'all' and not exp_ended:
         how = 'iter'
-    got, got_ended, exc = cb.real_take(pat, N, how)
+    got, got_ended, exc = cb.real_take(pat, n, how)
     return compare(exp, exp_ended, got, got_ended, exc), exp, got, exc
+
+
+BLAME_N = 8 * N     # a sub-expression may differ only beyond the first 64 values
 
 
 def blame(node, leaves, limit=None):
@@ -201,14 +204,17 @@ def blame(node, leaves, limit=None):
         if limit:
             try:
                 with cb.time_limit(limit):
-                    kind, exp, got, exc = check_node(node, leaves)
+                    kind, exp, got, exc = check_node(node, leaves, n=BLAME_N)
             except cb.RealTimeout:
                 exp, _ = mp.take(node, N, leaves=leaves)
                 return node, 'hang', exp, [], None
         else:
-            kind, exp, got, exc = check_node(node, leaves)
+            kind, exp, got, exc = check_node(node, leaves, n=BLAME_N)
     except (mp.OutOfFuel, mp.OutOfDomain, LeafBroken):
-        return None
+        try:
+            kind, exp, got, exc = check_node(node, leaves)
+        except (mp.OutOfFuel, mp.OutOfDomain, LeafBroken):
+            return None
     if kind:
         return node, kind, exp, got, exc
     return None
